@@ -903,13 +903,16 @@ def run_child(spec):
 # runner side
 # ---------------------------------------------------------------------------------------------
 ASSUMPTIONS = [
-    'statement shapes come from a seeded recursive generator (DESIGN §5.C12), not from all SQL: select list, WHERE, ON, CASE operand/WHEN/THEN/ELSE, '
-    'function arguments incl. FROM/FOR, IN, BETWEEN, CAST, unary minus, NOT, window PARTITION/ORDER, sub-selects (FROM, WHERE, both join sides), CTE, UNION, '
-    'GROUP/HAVING/ORDER, INSERT VALUES / INSERT SELECT, UPDATE SET/WHERE/FROM, DELETE',
+    'statement shapes come from a seeded recursive generator (DESIGN §5.C12), not from all SQL: 30 shapes (select list, WHERE, ON, CASE operand / WHEN / THEN / ELSE, '
+    'function arguments incl. FROM / FOR, count(distinct), extract, IN (also IN ?), tuples, IS, BETWEEN, CAST, window PARTITION / ORDER, sub-selects in FROM, WHERE, '
+    'select list and on both join sides, three-way and outer joins, sub-select joined with a model, one and two CTEs, UNION, GROUP / HAVING / ORDER, LIMIT / OFFSET '
+    '(rejected by the pinned grammars), INSERT VALUES rows of different layouts, INSERT SELECT, UPDATE SET / FROM / WHERE, DELETE, CREATE TABLE AS), three dialects',
     'the reference is plan_query(parse_sql(text with the values written inline)) with fresh planner and catalog objects in the same process',
-    'values are int / str / float constants, unique per placeholder',
-    'not judged (property silent, only counted): second execute on an executed session, info after execution, exceptions other than PlanningException '
-    'from column discovery when the stub executor misbehaves',
+    'values: unique ints / strings / floats, negative ints (mindsdb dialect only: the other grammars do not fold -5 into one constant), strings with "?", quotes, '
+    'backslashes, the empty string, >64-bit ints, booleans, NULL, and a palette of values that compare equal across types',
+    'not judged (property silent, only counted): info after execution, a second execute that is refused, exceptions other than PlanningException from column discovery '
+    'when the stub executor misbehaves, statements the parser rejects',
+    'a second execute (other values) that is accepted must plan for those values; the value list handed to execute_steps must be unchanged afterwards',
     'executor, integrations and models are stubs; no plan is executed',
 ]
 
